@@ -403,3 +403,300 @@ theorem applyFilter_noPanic {table : List (Bytes × FilterImpl)} (ht : ImplsNoPa
         have := convertArgs_noPanic sg.params (recv :: args)
         rw [hc] at this
         exact this.elim
+
+theorem ArgsOK.nil_inv {args : List Arg} (h : ArgsOK [] args) : args = [] := by cases h; rfl
+
+theorem ArgsOK.cons_inv {p : Param} {ps : List Param} {args : List Arg} (h : ArgsOK (p :: ps) args) :
+    ∃ a as, args = a :: as ∧ ArgOK p a ∧ ArgsOK ps as := by
+  cases h with
+  | cons h1 h2 => exact ⟨_, _, rfl, h1, h2⟩
+
+theorem ArgOK.val_inv {t : ParamTy} {a : Arg} (h : ArgOK (.val t) a) : ∃ v, a = .val v ∧ HasTy t v := by
+  cases a with
+  | val v => exact ⟨v, rfl, h⟩
+  | fn c => exact h.elim
+
+theorem ArgOK.fn_inv {t : ParamTy} {a : Arg} (h : ArgOK (.fn t) a) :
+    a = .fn none ∨ ∃ r, a = .fn (some r) ∧ NoPanicRes r ∧ ∀ v, r = .ok v → HasTy t v := by
+  cases a with
+  | val v => exact h.elim
+  | fn c =>
+    cases c with
+    | none => exact Or.inl rfl
+    | some r => exact Or.inr ⟨r, rfl, h.1, h.2⟩
+
+/-- the Go call `f(dflt)` of a well-typed default-function argument does not panic and returns the
+parameter's type -/
+theorem ArgOK.call {t : ParamTy} {a : Arg} (h : ArgOK (.fn t) a) {dflt : GoVal} (hd : HasTy t dflt) :
+    NoPanicRes (a.call dflt) ∧ ∀ v, a.call dflt = .ok v → HasTy t v := by
+  rcases h.fn_inv with rfl | ⟨r, rfl, h1, h2⟩
+  · exact ⟨trivial, fun v hv => by cases hv; exact hd⟩
+  · exact ⟨h1, h2⟩
+
+/-- a body is panic-free under the registered signature when it is under the signature's parameter list -/
+theorem implNP_of_sig {name : Bytes} {f : FilterImpl} {ps : List Param}
+    (hs : (lookupSig name).map (·.params) = some ps) (h : ∀ args, ArgsOK ps args → NoPanicRes (f args)) :
+    ∀ sg, lookupSig name = some sg → ∀ args, ArgsOK sg.params args → NoPanicRes (f args) := by
+  intro sg hsg args ha
+  rw [hsg] at hs
+  simp at hs
+  rw [hs] at ha
+  exact h args ha
+
+/-! ## The bodies of `Filters/Num.lean`
+
+`Num.badArgs` (a call with arguments of the wrong Go type: `reflect.Value.Call` panics) is the only
+`.panic` of the file; it is unreachable from `values.Call`, which converts every argument to the
+parameter type first. -/
+
+namespace Num
+
+theorem fltResult_noPanic (q : Rat) (nz : Bool) : NoPanicRes (fltResult q nz) :=
+  NoPanicRes.bind (f64Round_noPanic q nz) (fun _ => trivial)
+
+theorem intResult_noPanic (n : Int) : NoPanicRes (intResult n) := by
+  unfold intResult; split <;> trivial
+
+theorem divInt_noPanic (a : Rat) (q : Int) : NoPanicRes (divInt a q) := by
+  unfold divInt; split
+  · trivial
+  · exact NoPanicRes.bind (floatToInt64_noPanic a) (fun _ => trivial)
+
+theorem divFloat_noPanic (a q : Rat) : NoPanicRes (divFloat a q) := by
+  unfold divFloat; split
+  · trivial
+  · exact fltResult_noPanic _ _
+
+theorem pow10Go_noPanic (n : Int) : NoPanicRes (pow10Go n) := by
+  unfold pow10Go
+  simp only []
+  split
+  · trivial
+  · split
+    · split
+      · exact f64Round_noPanic _ _
+      · trivial
+    · split
+      · split
+        · exact f64Round_noPanic _ _
+        · trivial
+      · trivial
+
+theorem roundTo_noPanic (n : Rat) (p : Int) : NoPanicRes (roundTo n p) := by
+  unfold roundTo
+  refine NoPanicRes.bind (pow10Go_noPanic p) (fun e => ?_)
+  split
+  · trivial
+  · exact NoPanicRes.bind (f64Round_noPanic _ _) (fun _ => NoPanicRes.bind (f64Round_noPanic _ _) (fun _ =>
+      fltResult_noPanic _ _))
+
+/-- the shape of the arguments of a unary `float64` filter -/
+theorem args_f64 {args : List Arg} (h : ArgsOK [.val .f64] args) : ∃ a, args = [.val (.flt .f64 a)] := by
+  obtain ⟨x, xs, rfl, h1, h2⟩ := h.cons_inv
+  cases h2.nil_inv
+  obtain ⟨v, rfl, q, rfl⟩ := h1.val_inv
+  exact ⟨q, rfl⟩
+
+theorem args_f64_f64 {args : List Arg} (h : ArgsOK [.val .f64, .val .f64] args) :
+    ∃ a b, args = [.val (.flt .f64 a), .val (.flt .f64 b)] := by
+  obtain ⟨x, xs, rfl, h1, h2⟩ := h.cons_inv
+  obtain ⟨b, rfl⟩ := args_f64 h2
+  obtain ⟨v, rfl, q, rfl⟩ := h1.val_inv
+  exact ⟨q, b, rfl⟩
+
+theorem abs_noPanic (args : List Arg) (h : ArgsOK [.val .f64] args) : NoPanicRes (abs args) := by
+  obtain ⟨a, rfl⟩ := args_f64 h; rw [abs]; trivial
+theorem ceil_noPanic (args : List Arg) (h : ArgsOK [.val .f64] args) : NoPanicRes (ceil args) := by
+  obtain ⟨a, rfl⟩ := args_f64 h; rw [ceil]; exact intResult_noPanic _
+theorem floor_noPanic (args : List Arg) (h : ArgsOK [.val .f64] args) : NoPanicRes (floor args) := by
+  obtain ⟨a, rfl⟩ := args_f64 h; rw [floor]; exact intResult_noPanic _
+theorem plus_noPanic (args : List Arg) (h : ArgsOK [.val .f64, .val .f64] args) : NoPanicRes (plus args) := by
+  obtain ⟨a, b, rfl⟩ := args_f64_f64 h; rw [plus]; exact fltResult_noPanic _ _
+theorem minus_noPanic (args : List Arg) (h : ArgsOK [.val .f64, .val .f64] args) : NoPanicRes (minus args) := by
+  obtain ⟨a, b, rfl⟩ := args_f64_f64 h; rw [minus]; exact fltResult_noPanic _ _
+theorem times_noPanic (args : List Arg) (h : ArgsOK [.val .f64, .val .f64] args) : NoPanicRes (times args) := by
+  obtain ⟨a, b, rfl⟩ := args_f64_f64 h; rw [times]; exact fltResult_noPanic _ _
+theorem modulo_noPanic (args : List Arg) (h : ArgsOK [.val .f64, .val .f64] args) : NoPanicRes (modulo args) := by
+  obtain ⟨a, b, rfl⟩ := args_f64_f64 h
+  rw [modulo]
+  split
+  · trivial
+  · simp only []
+    split
+    · trivial
+    · split <;> trivial
+
+theorem dividedBy_noPanic (args : List Arg) (h : ArgsOK [.val .f64, .val .any] args) : NoPanicRes (dividedBy args) := by
+  obtain ⟨x, xs, rfl, h1, h2⟩ := h.cons_inv
+  obtain ⟨y, ys, rfl, h3, h4⟩ := h2.cons_inv
+  cases h4.nil_inv
+  obtain ⟨v, rfl, q, rfl⟩ := h1.val_inv
+  obtain ⟨b, rfl, _⟩ := h3.val_inv
+  simp only [dividedBy]
+  split
+  · exact divInt_noPanic _ _
+  · exact divFloat_noPanic _ _
+  · trivial
+
+theorem round_noPanic (args : List Arg) (h : ArgsOK [.val .f64, .fn .int] args) : NoPanicRes (round args) := by
+  obtain ⟨x, xs, rfl, h1, h2⟩ := h.cons_inv
+  obtain ⟨pl, ys, rfl, h3, h4⟩ := h2.cons_inv
+  cases h4.nil_inv
+  obtain ⟨v, rfl, q, rfl⟩ := h1.val_inv
+  rw [round]
+  have hc := h3.call (dflt := .int .int 0) ⟨0, rfl⟩
+  cases hr : pl.call (.int .int 0) with
+  | ok v =>
+    obtain ⟨p, rfl⟩ := hc.2 v hr
+    exact roundTo_noPanic _ _
+  | err e => trivial
+  | unmodelled w => trivial
+  | panic w => rw [hr] at hc; exact hc.1.elim
+
+theorem default_noPanic (args : List Arg) (h : ArgsOK [.val .any, .val .any] args) : NoPanicRes (default args) := by
+  obtain ⟨x, xs, rfl, h1, h2⟩ := h.cons_inv
+  obtain ⟨y, ys, rfl, h3, h4⟩ := h2.cons_inv
+  cases h4.nil_inv
+  obtain ⟨v, rfl, _⟩ := h1.val_inv
+  obtain ⟨d, rfl, _⟩ := h3.val_inv
+  simp only [Num.default]; trivial
+
+theorem size_noPanic (args : List Arg) (h : ArgsOK [.val .any] args) : NoPanicRes (size args) := by
+  obtain ⟨x, xs, rfl, h1, h2⟩ := h.cons_inv
+  cases h2.nil_inv
+  obtain ⟨v, rfl, _⟩ := h1.val_inv
+  rw [size]
+  split <;> trivial
+
+end Num
+
+/-! ## The bodies of `Filters/Str.lean` (no `.panic` occurs in that file) and the glue of `StrGlue.lean` -/
+
+theorem List.lookup_mem {α β} [BEq α] {l : List (α × β)} {k : α} {v : β} (h : l.lookup k = some v) :
+    ∃ k', (k', v) ∈ l := by
+  induction l with
+  | nil => simp [List.lookup] at h
+  | cons p l ih =>
+    obtain ⟨k', v'⟩ := p
+    simp only [List.lookup] at h
+    split at h
+    · cases h; exact ⟨k', List.mem_cons_self⟩
+    · obtain ⟨k'', hk⟩ := ih h
+      exact ⟨k'', List.mem_cons_of_mem _ hk⟩
+
+namespace StrF
+
+theorem optToRes_noPanic (w : String) (o : Option Bytes) : NoPanicRes (optToRes w o) := by
+  cases o <;> trivial
+
+theorem str1_noPanic (f : Bytes → Bytes → Bytes) (vs : List GoVal) : NoPanicRes (str1 f vs) := by
+  unfold str1; split <;> trivial
+
+theorem str0_noPanic {f : Bytes → Res Cause GoVal} (hf : ∀ s, NoPanicRes (f s)) (vs : List GoVal) :
+    NoPanicRes (str0 f vs) := by
+  unfold str0; split
+  · exact hf _
+  · trivial
+  · trivial
+
+theorem str0u_noPanic {f : Bytes → Res Cause GoVal} (hf : ∀ s, NoPanicRes (f s)) (vs : List GoVal) :
+    NoPanicRes (str0u f vs) := by
+  unfold str0u; split
+  · exact hf _
+  · exact hf _
+  · trivial
+  · trivial
+
+theorem replaceWith_noPanic (f : Bytes → Bytes → Bytes → Bytes) (vs : List GoVal) : NoPanicRes (replaceWith f vs) := by
+  unfold replaceWith; split <;> trivial
+
+theorem sliceF_noPanic (vs : List GoVal) : NoPanicRes (sliceF vs) := by
+  unfold sliceF; split <;> trivial
+
+theorem splitF_noPanic (vs : List GoVal) : NoPanicRes (splitF vs) := by
+  unfold splitF; split <;> trivial
+
+theorem truncWith_noPanic (f : Bytes → Int → Bytes → Bytes) (d : Int) (vs : List GoVal) :
+    NoPanicRes (truncWith f d vs) := by
+  unfold truncWith; split <;> trivial
+
+theorem sizeF_noPanic (vs : List GoVal) : NoPanicRes (sizeF vs) := by
+  unfold sizeF; split <;> trivial
+
+theorem urlDecodeF_noPanic (vs : List GoVal) : NoPanicRes (urlDecodeF vs) := by
+  apply str0_noPanic; intro s; split <;> trivial
+
+/-- every entry of the table of string filter bodies is panic-free, on arguments of any shape -/
+theorem table_noPanic : ∀ p ∈ table, ∀ vs, NoPanicRes (p.2 vs) := by
+  intro p hp vs
+  simp only [table, List.mem_cons, List.not_mem_nil, or_false] at hp
+  rcases hp with rfl | rfl | rfl | rfl | rfl | rfl | rfl | rfl | rfl | rfl | rfl | rfl | rfl | rfl | rfl | rfl |
+    rfl | rfl | rfl | rfl | rfl | rfl | rfl | rfl
+  · exact str1_noPanic _ vs
+  · exact str1_noPanic _ vs
+  · apply str0u_noPanic; intro _; exact optToRes_noPanic _ _
+  · apply str0u_noPanic; intro _; exact optToRes_noPanic _ _
+  · apply str0u_noPanic; intro _; exact optToRes_noPanic _ _
+  · apply str0_noPanic; intro _; trivial
+  · apply str0u_noPanic; intro _; exact optToRes_noPanic _ _
+  · apply str0_noPanic; intro _; trivial
+  · exact str1_noPanic _ vs
+  · exact str1_noPanic _ vs
+  · exact replaceWith_noPanic _ vs
+  · exact replaceWith_noPanic _ vs
+  · exact sliceF_noPanic vs
+  · exact splitF_noPanic vs
+  · apply str0_noPanic; intro _; trivial
+  · apply str0_noPanic; intro _; trivial
+  · apply str0_noPanic; intro _; trivial
+  · apply str0_noPanic; intro _; trivial
+  · apply str0_noPanic; intro _; trivial
+  · exact truncWith_noPanic _ _ vs
+  · exact truncWith_noPanic _ _ vs
+  · apply str0_noPanic; intro _; trivial
+  · exact urlDecodeF_noPanic vs
+  · exact sizeF_noPanic vs
+
+/-- the string filters by name: no body panics, whatever the arguments -/
+theorem apply_noPanic (name : String) (vs : List GoVal) : NoPanicRes (apply name vs) := by
+  unfold apply
+  split
+  · next f hf =>
+    obtain ⟨k, hk⟩ := List.lookup_mem hf
+    exact table_noPanic (k, f) hk vs
+  · trivial
+
+end StrF
+
+namespace StrGlue
+
+theorem collect_noPanic : ∀ args : List Arg, (∀ a ∈ args, ArgNP a) → NoPanicRes (collect args)
+  | [], _ => trivial
+  | .val v :: rest, h => by
+    rw [collect]
+    exact NoPanicRes.bind (collect_noPanic rest (fun a ha => h a (List.mem_cons_of_mem _ ha))) (fun _ => trivial)
+  | .fn (some r) :: rest, h => by
+    rw [collect]
+    have hr : NoPanicRes r := h (.fn (some r)) List.mem_cons_self
+    exact NoPanicRes.bind hr (fun _ =>
+      NoPanicRes.bind (collect_noPanic rest (fun a ha => h a (List.mem_cons_of_mem _ ha))) (fun _ => trivial))
+  | .fn none :: rest, _ => by
+    rw [collect]; split <;> trivial
+
+/-- a string filter called through the glue: panic-free as soon as the (lazily converted) constants
+of its default-function arguments are -/
+theorem impl_noPanic (name : String) (args : List Arg) (h : ∀ a ∈ args, ArgNP a) : NoPanicRes (impl name args) := by
+  unfold impl
+  refine NoPanicRes.bind (collect_noPanic args h) (fun o => ?_)
+  cases o with
+  | none => trivial
+  | some vs =>
+    simp only []
+    have := StrF.apply_noPanic name vs
+    cases hr : StrF.apply name vs with
+    | ok v => trivial
+    | err c => trivial
+    | unmodelled w => trivial
+    | panic w => rw [hr] at this; exact this.elim
+
+end StrGlue
